@@ -131,7 +131,33 @@ def check_case(ctx, case):
         raw.__annotations__ = {p["name"]: gs.ann_object(p["ann"], i) for i, p in enumerate(full) if gs.ann_object(p["ann"], i) is not None}
     if kind == "lambda":
         raw.__doc__ = "docstring of the original"
-    info = f"source={src!r} descriptor={desc} checker={ck}"
+    via = case.get("via")
+    passthrough = []
+    if via == "wraps" and desc in ("function", "staticmethod") and kind != "async":
+        # the decorated callable is a functools.wraps pass-through around the generated function: it sees exactly the
+        # (args, kwargs) it is called with -- which must be the caller's, not a normalised form of them
+        import functools
+
+        inner = raw
+
+        @functools.wraps(inner)
+        def raw(*a, **k):
+            passthrough.append((a, k))
+            return inner(*a, **k)
+    elif via == "asyncwrap" and desc == "function" and kind == "def":
+        # a coroutine function that wraps a synchronous def (run-in-thread / asyncify adapters): calling it returns a
+        # coroutine; the return annotation copied from the sync function describes the awaited value, not the coroutine
+        import functools
+
+        inner = raw
+
+        @functools.wraps(inner)
+        async def raw(*a, **k):
+            passthrough.append((a, k))
+            return inner(*a, **k)
+
+        kind = "async"
+    info = f"source={src!r} descriptor={desc} checker={ck} via={via}"
     wrap = {"function": lambda f: f, "method": lambda f: f, "classmethod": classmethod, "staticmethod": staticmethod, "property": property}[desc]
     tc = gc.checker(ck)
     try:
@@ -213,6 +239,11 @@ def check_case(ctx, case):
                         raise Violation("result-identity", case, f"well-typed call gave {st_} {val!r}, expected the body's result object {where}")
                     if len(rec.calls) != 1:
                         raise Violation("body-count", case, f"body ran {len(rec.calls)} times {where}")
+                    if passthrough:
+                        pa, pk_ = passthrough[-1]
+                        if not (len(pa) == len(args) and all(x is y for x, y in zip(pa, args)) and list(pk_) == list(kwargs) and all(pk_[q] is kwargs[q] for q in kwargs)):
+                            raise Violation("call-shape", case, f"the wrapped callable was called with args={pa!r} kwargs={pk_!r}, the caller passed args={args!r} kwargs={kwargs!r}; {where}")
+                        passthrough.clear()
                     exp = dict(recv)
                     if bound_first is not None:
                         exp["self" if desc == "method" else "cls"] = bound_first
@@ -312,6 +343,7 @@ def c07_case(draw):
         "styles": [0, draw(st.integers(1, 15)), 15, draw(st.integers(16, 31))],
         "ret_ann": draw(st.sampled_from(["obj", None, None])) if kind != "async" else draw(st.sampled_from([None, "obj"])),
         "lambda_annotations": draw(st.sampled_from([True, False])),
+        "via": draw(st.sampled_from([None, "wraps", None, "asyncwrap", None])),
     }
     return case
 
